@@ -161,12 +161,45 @@ def check_cases(chk, cases):
             chk.violation("%s: decoding the same bytes depends on uninitialised memory: %s" %
                           (kind, codec.fdiff(decs[0], decs[1]) or codec.fdiff(decs[0], decs[2])), case, True)
             continue
+        # decoding is a function of the bytes alone: a client who fills every array of a decoded block with numbers
+        # (gap frames and wholly missing tracks included) does not change what the NEXT decode of the same bytes gives
+        try:
+            o1, _n = blocks.impl_build(kind, fmt, b)
+            scribble(kind, o1)
+        except Exception as e:
+            chk.violation("%s: a decoded block cannot be edited in place: %s" % (kind, common.exc_info(e)), case, True)
+            continue
+        again = codec.impl_decode(kind, fmt, b).get("dec")
+        if again != decs[0]:
+            chk.violation("%s: decoding the same bytes again, after the client filled the arrays of the first decoded block "
+                          "in place, gives other frames: %s" % (kind, "cannot be decoded" if again is None else codec.fdiff(again, decs[0])), case, True)
+            continue
         if decs[0] != m["dec"]:
             d = codec.fdiff(decs[0], v)
             if d:
                 chk.violation("%s: frames after decode differ from what was stored at %s" % (kind, d), case, True)
             else:
                 chk.violation("model decode differs", dict(case, correspondence="Blocks.v dec vs _build"), False)
+
+
+def scribble(kind, o):
+    """overwrite every sample array of a decoded block in place (read-only arrays are left alone)"""
+    def fill(a):
+        try:
+            a[...] = 777.0
+        except ValueError:
+            pass
+    if kind == "D3":
+        for t in o._tracks:
+            fill(t.data)
+    elif kind == "EM":
+        for t in o._signals:
+            fill(t.data)
+    elif kind in ("FT", "PD"):
+        for t in (o._tracks if kind == "FT" else o._platforms):
+            fill(t.application_point)
+            fill(t.force)
+            fill(t.torque)
 
 
 def mask_text(frames):
@@ -201,7 +234,7 @@ def run(chk):
     chk.rule = ("every presence mask over n<=%d frames for each of the four run-length coded kinds (single- and "
                 "two-track blocks), plus long random tracks and multi-track blocks; observation = segment tables parsed "
                 "from the written bytes with struct, and the decoded frames (NaN mask + bit patterns) under three "
-                "different pre-fills of numpy.empty; compared with Segments.chunks and the model decoder; "
+                "different pre-fills of numpy.empty, and once more after the first decoded block was filled with numbers in place; compared with Segments.chunks and the model decoder; "
                 "also: blocks built, used (sized / encoded / compared / printed), then edited IN PLACE to another content of the same shape and used again; blocks built from arrays with the same values but another memory layout (column-major, strided, reversed, big-endian, read-only, unaligned); non-trivial = at least one gap and one present frame" % (8 if chk.tier == "quick" else 11))
     chk.assumptions = ["'any process memory state' is modelled as 'any content of the buffer numpy.empty returns'"]
     corpus = codec.load_corpus("C05")
